@@ -206,6 +206,8 @@ class PathDomain(Domain):
             return None  # analysed (returns normpath of environ[...])
         if d in ("len", "int", "bool", "isinstance", "hasattr", "sum", "sorted", "print", "repr", "type"):
             return self.OTHER
+        if d in ("list", "set", "tuple", "iter", "reversed", "frozenset") and len(args) == 1:
+            return args[0]      # an iterable is represented by its elements: structure kept
         if d in ("list", "set", "tuple", "iter", "reversed", "filter", "dict"):
             out = BOT
             for v in args:
